@@ -4,7 +4,9 @@ GEN: TLC enumerates every relation between <= 4 servers and <= 4 shares (quick: 
 servers, thorough: all 65 536) with the Spec's value, and checks its three definitions of the maximum
 matching against each other.  The driver replays each relation into the real function under several
 dict/set constructions; TRACE: seeded relations up to 30 x 30 are judged by TLC (augmenting paths)."""
-import json
+import json, sys, os
+sys.path.insert(0, os.path.join(os.path.dirname(__file__), '..', '..', 'lib'))
+from vfw import core
 
 
 def run(ctx):
@@ -49,6 +51,23 @@ def run(ctx):
               key_of=lambda tr, l, c: "trace:%s" % c,
               what_of=lambda tr, l, c: "servers_of_happiness returned %s (%s) under %s for relation %s; TLC clause %s" % (
                   tr["events"][l - 1]["got"], tr["events"][l - 1]["err"], tr["events"][l - 1]["variant"], json.dumps(tr["consts"]["adj"]), c))
+    # the call sites named by the statement ("used ... in check results"): the happiness reported in real check
+    # results (immutable check / verify / check-and-repair, mutable check) must be the maximum matching of the
+    # share map reported in the same result; layouts with duplicated share numbers and several shares per server
+    rtraces = ctx.impl("harness/happiness_results_driver.py", ["--n", 14 if q else 150])
+    if not rtraces:
+        raise core.MachineryError("no check results recorded")
+    sites = {}
+    for t in rtraces:
+        sites[t["consts"]["site"]] = sites.get(t["consts"]["site"], 0) + 1
+        ctx.count("result:" + json.dumps(t["consts"]["adj"], sort_keys=True) if len(t["consts"]["adj"]) > 2 else None)
+    ctx.notes.append("check results judged, by call site: %s" % json.dumps(sites, sort_keys=True))
+    ctx.sample({"check_result": rtraces[0]["consts"], "events": rtraces[0]["events"]})
+    ctx.trace("immutable/TraceHappiness", rtraces, invariants=("TraceOK", "AlgorithmsAgree"), batch=500,
+              name="TRACE TraceHappiness (happiness in real check results)",
+              key_of=lambda tr, l, c: "trace:%s:%s" % (c, tr["consts"]["site"].split("_verify")[0]),
+              what_of=lambda tr, l, c: "the %s result reports happiness %s for the share map %s; TLC clause %s" % (
+                  tr["consts"]["site"], tr["events"][l - 1]["got"], json.dumps(tr["consts"]["adj"]), c))
     ctx.assumptions += ["TLC and the CommunityModules", "the three Spec definitions of maximum matching agree beyond the sizes TLC compared them on "
                         "(Def vs Rec: <= %d edges; Rec vs Aug: every generated case and every recorded relation with <= 7 servers and <= 30 edges)" % consts["DefLimit"],
                         "PYTHONHASHSEED=0: set iteration orders are varied through server id types and salts, not through the hash seed"]
